@@ -393,7 +393,10 @@ def suite : Suite where
         let (d', obs, viol, t) := stepOp d o.1 o.2
         -- no stored record, description or call sequence crashes the client (the harness turns a Go panic of the
         -- calling goroutine into this observation; it reports it for every op of the case: judged once)
-        let crash := if o.2.startsWith "panic:" && rs.isEmpty then
+        -- C13: the magnet link a torrent exports names the tracker tiers the torrent has (the harness marks a difference)
+        let exp := if (o.2.splitOn "!export").length ≥ 2 then
+            ["C13 exported-magnet-tiers-differ-from-the-torrent's", "C14 exported-magnet-tiers-differ-from-the-torrent's"] else []
+        let crash := exp ++ if o.2.startsWith "panic:" && rs.isEmpty then
             [s!"C06 client-crashed obs={(o.2.take 120).toString.replace " " "_"}", s!"C14 client-crashed obs={(o.2.take 120).toString.replace " " "_"}"] else []
         (d', (obs, viol ++ crash) :: rs, tags ++ t)) ({}, [], [])
     let tags := tags.eraseDups
